@@ -136,7 +136,8 @@ def rule_lookahead(R):
     # the header probe runs whenever the length is unknown
     pf = roles.method(f, READER, "probe_fixed_header")
     cs = outq.calls_to(f, rb, pf)
-    okp = False
+    # the probe may also run unconditionally (it returns at once when the length is known)
+    okp = bool(cs) and rb.must_pass([0], [idx[0].bb], via_blocks=[c.bb for c in cs])[0]
     for bb in rb.switches:
         si = rb.switch_info(bb)
         s = peel(si["subject"])
@@ -184,8 +185,11 @@ def rule_write(R):
             fl = dict(zip(a[4], a[5]))
             r, nm = chain(fl["written"])
             okw = nm[-3:] == ["state", "@Write", "written"] and r == ("param", "step")
-            ln = peel(fl["len"])
-            okl = (is_call(ln, "len") and same_shape(peel(ln[3][0]), peel(fl["bytes"]))) or chain(ln)[1][-1:] == ["len"]
+            if "len" in fl:
+                ln = peel(fl["len"])
+                okl = (is_call(ln, "len") and same_shape(peel(ln[3][0]), peel(fl["bytes"]))) or chain(ln)[1][-1:] == ["len"]
+            else:
+                okl = "bytes" in fl   # no separate length is carried: the length is that of the bytes by construction
             R.ob("write/step-fields#%d" % n, okw and okl,
                  "a write step starts at the entry's recorded `written` and its length is the length of its bytes (written %s)"
                  % show(fl["written"]), where=s["span"])
@@ -216,6 +220,10 @@ def rule_write(R):
     # write_all: cursor advances by the returned count
     wa = f.code(roles.free_fn(f, "write_all"))
     w = [c for c in wa.calls.values() if c.bb in wa.reachable and c.path == IO_WRITE]
+    if not w and not inline_write:
+        # write_all may go through the single-write helper, whose result is the accepted count (write/current)
+        wcb = roles.free_fn(f, "write_current")
+        w = outq.calls_to(f, wa, wcb)
     oka = len(w) == 1
     if oka:
         idx = [c for c in wa.calls.values() if c.bb in wa.reachable and c.is_("Index::index", "index")]
